@@ -11,7 +11,7 @@ SAN = re.compile(r"(ERROR: AddressSanitizer|ERROR: LeakSanitizer|runtime error:|
 
 def setup(src):
     e2v.build_harness("h_dirwalk", src)
-    e2v.build_driver("dirwalk", ["theories/Parsers/DirWalk.vo"], ["dirwalk_model"])
+    e2v.build_driver("dirwalk", ["theories/Parsers/DirWalk.vo", "theories/Parsers/EaValue.vo"], ["dirwalk_model"])
     e2v.ensure_build("asan")
 
 
@@ -256,6 +256,46 @@ def aux_case(src, asan, idx, seed, tier):
     return {"kind": kind, "base": name, "damage": desc, "case_index": idx}, bad, nrun
 
 
+def ea_value_corr(src, mexe, seed, n):
+    """e2fsck pass 1 on attribute-block entries with chosen (e_value_offs, e_value_size): PR_1_EA_BAD_VALUE is reported
+    exactly when the extracted ea_value_ok says no"""
+    from props import c02
+    rows, bad = 0, []
+    r = e2v.rng(seed, "c06ea")
+    for name in ("ext4_1k", "ext4_4k", "ext4_nocsum"):
+        cfg = [c for c in corrupt.IMG_CONFIGS if c[0] == name][0]
+        base = corrupt.build_image(src, WORK, cfg[0], cfg[1], cfg[2], 1)
+        fs = Fs(base)
+        owners = [i for i in fs.in_use_inodes() if (i == 2 or i >= fs.first_ino) and fs.inode(i)["file_acl"]]
+        if not owners:
+            continue
+        blk = fs.inode(owners[0])["file_acl"]
+        a = blk * fs.bs
+        bs = fs.bs
+        grid = [(bs - 4, (1 << 32) - bs // 2), (4, bs - 4), (4, bs - 3), (bs, 0), (bs, 1), (0, bs), (0, bs + 1), (100, 1 << 24), (100, (1 << 24) + 1),
+                (0xFFFF, 1), (0xFFFF, (1 << 32) - 0xFFFF), (bs // 2, (1 << 32) - bs // 2), (bs // 2, (1 << 32) - bs // 2 + bs), (64, 0xFFFFFFFF), (64, 0x80000000)]
+        grid += [(r.choice([0, 32, 36, bs // 2, bs - 8, bs - 1, bs, bs + 8, 0xFFF0]), r.choice([0, 1, 8, bs // 2, bs - 36, bs, 1 << 16, 1 << 24, (1 << 32) - r.randint(1, 2 * bs)])) for _ in range(n)]
+        for offs, size in grid:
+            size &= 0xFFFFFFFF
+            d = bytearray(fs.d)
+            e = a + 32
+            struct.pack_into("<H", d, e + 2, offs & 0xFFFF)
+            struct.pack_into("<I", d, e + 4, 0)
+            struct.pack_into("<I", d, e + 8, size)
+            corrupt.fix_xattr_block_csum(fs, d, blk)
+            img = os.path.join(WORK, "ea_%s.img" % name)
+            open(img, "wb").write(d)
+            rc, probs, out = c02.fsck(src, img, ["-fn"], "ea")
+            mo = subprocess.run([mexe], input=("E %d %d %d\n" % (bs, offs & 0xFFFF, size)).encode(), stdout=subprocess.PIPE, timeout=30).stdout.decode().strip()
+            rows += 1
+            reported = any(c == 0x010042 for c, a_ in probs)
+            if rc < 0 or mo not in ("0", "1") or reported != (mo == "0"):
+                bad.append({"base": name, "block_size": bs, "e_value_offs": offs & 0xFFFF, "e_value_size": size, "e2fsck_exit": rc,
+                            "PR_1_EA_BAD_VALUE reported": reported, "model ea_value_ok": mo})
+            os.unlink(img)
+    return rows, bad
+
+
 def dirwalk_corr(src, hexe, mexe, seed, n):
     """library directory walk vs the model on directory blocks with damaged record headers"""
     r = e2v.rng(seed, "c06d")
@@ -307,7 +347,7 @@ def run(res, replay=None):
     pr = e2v.coq_property("C06")
     res.add_proof(pr)
     hexe = e2v.build_harness("h_dirwalk", src)
-    mexe = e2v.build_driver("dirwalk", ["theories/Parsers/DirWalk.vo"], ["dirwalk_model"])
+    mexe = e2v.build_driver("dirwalk", ["theories/Parsers/DirWalk.vo", "theories/Parsers/EaValue.vo"], ["dirwalk_model"])
     res.cov["trusted_base"] = e2v.TRUSTED_COMMON + [
         "clang/gcc AddressSanitizer + UndefinedBehaviorSanitizer build of the working tree (asan variant): what they do not instrument is not observed",
         "a SIGKILL timeout of 60 s per invocation stands for 'hang'",
@@ -320,6 +360,7 @@ def run(res, replay=None):
     for nm, op, sz in corrupt.IMG_CONFIGS:
         corrupt.build_image(src, WORK, nm, op, sz, 1)
     rows, dbad = dirwalk_corr(src, hexe, mexe, seed, 40 if tier == "quick" else 2000)
+    erows, ebad = ea_value_corr(src, mexe, seed, 6 if tier == "quick" else 150)
     n_img, n_j, n_a = (48, 16, 16) if tier == "quick" else (4000, 1500, 800)
     with concurrent.futures.ThreadPoolExecutor(14) as ex:
         o1 = list(ex.map(lambda i: image_case(src, asan, i, seed, tier), range(n_img)))
@@ -341,6 +382,10 @@ def run(res, replay=None):
                          "statement": "no sanitizer report, fatal signal or 60 s hang in any tool invocation on damaged input"}
     res.cov["rule"] = "structured and unstructured damage to populated images of 6 feature sets, journals (c03 generator + byte damage in log blocks), undo files and qcow2 images x e2fsck -fn/-fy/-p/-fyD, 12 debugfs commands, dumpe2fs, tune2fs -l, resize2fs -P, e2image, e2freefrag, e2undo; non-trivial: every case"
     res.add_obligation("library directory walk = model on all damaged directories", not dbad)
+    res.cov["correspondence"]["ea_value_entries"] = erows
+    res.cov["correspondence"]["ea_value_mismatches"] = len(ebad)
+    res.cov["correspondence"]["ea_value_compared"] = "attribute-block entries with chosen (e_value_offs, e_value_size), block checksum valid: e2fsck -fn reports PR_1_EA_BAD_VALUE exactly when the extracted ea_value_ok rejects"
+    res.add_obligation("e2fsck's attribute value check = ea_value_ok on the whole grid", not ebad)
 
     def sig(recipe, b):
         w = b[0]["why"]
@@ -357,6 +402,9 @@ def run(res, replay=None):
     for c in dbad[:1]:
         res.violation("correspondence", {"drift": c, "note": "library directory walk and model disagree"}, has_input=True,
                       signature="c06dir:" + hashlib.sha256(json.dumps(c).encode()).hexdigest()[:12])
-    if not pr["ok"] and not bad and not dbad:
+    for c in ebad[:1]:
+        res.violation("correspondence", {"entry": c, "note": "e2fsck pass 1 and the model disagree on an attribute value's bounds (theorem ea_value_check_safe is about the model)"}, has_input=True,
+                      signature="c06ea:" + hashlib.sha256(json.dumps(c).encode()).hexdigest()[:12])
+    if not pr["ok"] and not bad and not dbad and not ebad:
         res.violation("proof", {"theorem_file": "coq/theories/Properties_C06.v", "failed_at": pr["failed_at"],
                                 "forbidden": pr["forbidden"], "log_tail": pr["log_tail"][-1500:]}, has_input=False)
